@@ -131,6 +131,20 @@ class StructModel:
         for i, t in self.inits.items():
             # a parameter may pass through a straight-line validation helper that returns it unchanged
             t = self.prog.inline(t, depth=2)
+            if tag(t) == 'field' and tag(t[1]) == 'agg' and t[1][1] == 'tuple' and isinstance(t[2], int) and t[2] < len(t[1][3]):
+                # ... or through a helper handing a tuple of its parameters back (inlined to a projection of the tuple literal)
+                t = t[1][3][t[2]]
+                if tag(t) == 'arg':
+                    self.inits[i] = t
+            # ... or through a validation helper handing a tuple of its parameters back: component i IS the argument
+            if tag(t) == 'field' and tag(t[1]) == 'call' and isinstance(t[2], int) and t[1][1] in self.pdb.bodies:
+                h = self.prog.func(t[1][1])
+                rv = h.return_values() if h is not None else []
+                if rv and all(tag(r) == 'agg' and r[1] == 'tuple' and t[2] < len(r[3]) and tag(r[3][t[2]]) == 'arg' for r in rv) \
+                        and len({r[3][t[2]][1] for r in rv}) == 1 and rv[0][3][t[2]][1] - 1 < len(t[1][2]):
+                    t = self.prog.inline(t[1][2][rv[0][3][t[2]][1] - 1], depth=2)
+                    if tag(t) == 'arg':
+                        self.inits[i] = t
             if tag(t) == 'arg':
                 self.param_of[i] = t[1]
         # guards at the block where the aggregate is built
